@@ -470,6 +470,10 @@ func (vc *VC) structSort(t types.Type, u *types.Struct) string {
 }
 
 func (vc *VC) fieldAcc(sname string, u *types.Struct, i int) string {
+	if u.Field(i).Name() == "_" {
+		// blank fields may repeat: the accessor carries the field index
+		return fmt.Sprintf("%s._%d", sname, i)
+	}
 	return fmt.Sprintf("%s.%s", sname, smtQuote(u.Field(i).Name()))
 }
 
